@@ -1298,6 +1298,8 @@ fn directed_consecutive_jumps(rng: &mut Rng) -> (Pat, Vec<Vec<u8>>, &'static str
             _ => (0, None),
         });
     }
+    // the compiler rejects a (coalesced) jump of length zero
+    if jumps.iter().all(|j| j.1 == Some(0)) { let l = jumps.len(); jumps[l - 1].1 = Some(1 + rng.below(3) as usize); }
     let all_bounded = jumps.iter().all(|j| j.1.is_some());
     let any_bounded = jumps.iter().any(|j| j.1.is_some());
     let name = if all_bounded { "all_bounded" } else if any_bounded { "mixed" } else { "all_unbounded" };
